@@ -128,15 +128,18 @@ theorem unsupported_rejected (p p' : CertParams) (seen : List (List Nat)) (exts 
         | error x => simp [hs] at h
         | ok s =>
           simp only [hs] at h
-          rcases List.mem_cons.1 he with rfl | hr
-          · exact Or.inr (Or.inl ⟨_, hv⟩)
-          · exact ih _ _ h e hr
+          split at h
+          · cases h
+          · rcases List.mem_cons.1 he with rfl | hr
+            · exact Or.inr (Or.inl ⟨_, hv⟩)
+            · exact ih _ _ h e hr
       | eku oids =>
         simp only [hv] at h
         split at h
         · rename_i hall
+          rw [Bool.and_eq_true] at hall
           rcases List.mem_cons.1 he with rfl | hr
-          · exact Or.inr (Or.inr ⟨_, hv, hall⟩)
+          · exact Or.inr (Or.inr ⟨_, hv, hall.1⟩)
           · exact ih _ _ h e hr
         · cases h
       | _ => simp [hv] at h
